@@ -342,6 +342,9 @@ func (m *mutexSrc) src(fn *ssa.Function, v ssa.Value, kp ssa.Value, at ssa.Instr
 		}
 		return true
 	case *ssa.Extract:
+		if ta, isTA := x.Tuple.(*ssa.TypeAssert); isTA && x.Index == 0 {
+			return m.src(fn, ta.X, kp, at, depth) // v, ok := value.(*sync.Mutex)
+		}
 		call, ok := x.Tuple.(*ssa.Call)
 		if !ok {
 			m.why = "unexpected source " + an.Term(v)
